@@ -252,11 +252,12 @@ func streamFamilies(tier string, run streamBody) []engine.Family {
 			case 0:
 				evs = []model.Event{model.Str(s)}
 			case 1:
-				evs = []model.Event{model.ArrStart(-1, structform.AnyType), model.Str(s), model.StrRef(s), model.ArrEnd()}
+				// announced length, the string is neither the only nor the last element
+				evs = []model.Event{model.ArrStart(3, structform.AnyType), model.Str(s), model.StrRef(s), model.SInt(model.KInt8, 7), model.ArrEnd()}
 			case 2:
-				evs = []model.Event{model.ObjStart(-1, structform.AnyType), model.Key(s), model.Str(s), model.ObjEnd()}
+				evs = []model.Event{model.ObjStart(-1, structform.AnyType), model.Key(s), model.Str(s), model.Key("z"), model.ArrStart(-1, structform.AnyType), model.StrRef(s), model.Nil(), model.ArrEnd(), model.ObjEnd()}
 			default:
-				evs = []model.Event{model.ObjStart(2, structform.AnyType), model.KeyRef(s), model.Nil(), model.Key("z"), model.StrRef(s), model.ObjEnd()}
+				evs = []model.Event{model.ObjStart(3, structform.AnyType), model.KeyRef(s), model.StrRef(s), model.Key("y"), model.Nil(), model.Key("z"), model.StrRef(s), model.ObjEnd()}
 			}
 			want, _ := model.ValueOf(evs)
 			cl := "string:" + stringClass(s)
